@@ -275,6 +275,10 @@ func guardedBy(r *Report, rule, pkg, typ, field, lockField string, exempt map[st
 			lsCache[fn] = ls
 		}
 		mode := ls.Held(fa.In, lockField)
+		if (mode == "" || (fa.Write && mode != "W")) && callersHold(r.P, top, lockField, fa.Write, 3, map[*ssa.Function]bool{}) {
+			r.Pass(rule, fa.In.Pos(), fmt.Sprintf("%s held by every caller of %s (lock-on-entry helper)", lockField, top.Name()), key...)
+			continue
+		}
 		switch {
 		case mode == "":
 			r.Fail(rule, fa.In.Pos(), fmt.Sprintf("%s.%s accessed without holding %s", typ, field, lockField), key...)
@@ -340,6 +344,9 @@ func checkLockedHelperCallers(r *Report, rule string, helper *ssa.Function, lock
 				return // helper calling helper: checked at the outer helper's callers
 			}
 			good := mode == "W" || (mode == "R" && !write)
+			if !good && callersHold(r.P, Outermost(f), lockField, write, 3, map[*ssa.Function]bool{}) {
+				good = true // the caller is itself entered with the lock held, by every one of its callers
+			}
 			r.Ob(rule, CallPos(ci), good, fmt.Sprintf("caller of lock-on-entry helper %s holds %s (%q)", helper.Name(), lockField, mode),
 				r.P.FuncName(f), "calls:"+helper.Name())
 		})
@@ -526,6 +533,9 @@ func expiryCompareT(v ssa.Value, depth int, typ, field string) (call *ssa.Call, 
 	switch x := v.(type) {
 	case *ssa.Call:
 		c := CalleeOf(x)
+		if it, tme, ok := expiryPredicate(x, typ, field, depth); ok {
+			return x, it, tme == pol, true
+		}
 		if c.Pkg != "time" || c.Recv != "Time" || (c.Name != "After" && c.Name != "Before") {
 			return nil, nil, false, false
 		}
@@ -615,7 +625,13 @@ func checkExpiredAbsent(r *Report, f *ssa.Function) {
 			}
 			skipped := ReachesWithout(f, in, func(v ssa.Instruction) bool {
 				c, ok := v.(*ssa.Call)
-				if !ok || !CalleeOf(c).Is("time:Time.IsZero") {
+				if !ok {
+					return false
+				}
+				if it, _, isPred := expiryPredicate(c, "StorageItem", "Expiration", 0); isPred && sameItem(it, base) {
+					return true
+				}
+				if !CalleeOf(c).Is("time:Time.IsZero") {
 					return false
 				}
 				t2, f2, b2, ok := FieldOf(c.Call.Args[0])
@@ -964,4 +980,105 @@ func variadicElems(a ssa.Value) []ssa.Value {
 		}
 	}
 	return out
+}
+
+// callersHold: f is an unexported function (not started as a goroutine, not used as a value) and
+// every static call site of f holds the lock in the required mode, or lies in a function for which
+// the same is true (depth-bounded). Such a function is a lock-on-entry helper whatever its name.
+func callersHold(p *Prog, f *ssa.Function, lockField string, write bool, depth int, seen map[*ssa.Function]bool) bool {
+	if f == nil || depth <= 0 || seen[f] || f.Object() == nil || f.Object().Exported() {
+		return false
+	}
+	seen[f] = true
+	n := 0
+	okAll := true
+	for _, g := range p.Funcs {
+		Instrs(g, func(in ssa.Instruction) {
+			if !okAll {
+				return
+			}
+			// any use of f other than a direct call makes the callers unknowable
+			switch x := in.(type) {
+			case *ssa.Go:
+				if x.Call.StaticCallee() == f {
+					okAll = false
+				}
+				return
+			case *ssa.Defer:
+				if x.Call.StaticCallee() == f {
+					okAll = false
+				}
+				return
+			case *ssa.MakeClosure:
+				return
+			}
+			c, ok := in.(*ssa.Call)
+			if !ok {
+				return
+			}
+			for _, a := range c.Call.Args {
+				if a == ssa.Value(f) {
+					okAll = false
+				}
+			}
+			if c.Common().StaticCallee() != f {
+				return
+			}
+			n++
+			mode := lockSetsOf(g).Held(in, lockField)
+			if mode == "W" || (mode == "R" && !write) {
+				return
+			}
+			if !callersHold(p, Outermost(g), lockField, write, depth-1, seen) {
+				okAll = false
+			}
+		})
+	}
+	return okAll && n > 0
+}
+
+// expiryPredicate: c calls a same-module bool predicate (`item.expiredAt(now)`, `isExpired(item)`)
+// every non-constant result of which is a clock comparison on the expiry field of one of its own
+// parameters. Returns the argument bound to that parameter and whether true means "expired".
+func expiryPredicate(c *ssa.Call, typ, field string, depth int) (item ssa.Value, trueMeansExpired bool, ok bool) {
+	h := c.Common().StaticCallee()
+	if h == nil || len(h.Blocks) == 0 || h.Pkg == nil || !strings.HasPrefix(h.Pkg.Pkg.Path(), Module) || depth > 3 {
+		return nil, false, false
+	}
+	res := h.Signature.Results()
+	if res.Len() != 1 || res.At(0).Type().String() != "bool" {
+		return nil, false, false
+	}
+	var param *ssa.Parameter
+	n := 0
+	for _, ret := range Returns(h) {
+		v := RetVal(ret, 0)
+		if _, isC := ConstBool(v); isC {
+			continue
+		}
+		_, it, tme, ok := expiryCompareT(v, depth+1, typ, field)
+		if !ok {
+			return nil, false, false
+		}
+		p, isP := stripValue(it).(*ssa.Parameter)
+		if !isP {
+			if u, isU := stripValue(it).(*ssa.UnOp); isU {
+				p, isP = u.X.(*ssa.Parameter)
+			}
+		}
+		if !isP || (param != nil && p != param) || (n > 0 && tme != trueMeansExpired) {
+			return nil, false, false
+		}
+		param, trueMeansExpired = p, tme
+		n++
+	}
+	if param == nil {
+		return nil, false, false
+	}
+	for i, q := range h.Params {
+		if q == param && i < len(c.Call.Args) {
+			return c.Call.Args[i], trueMeansExpired, true
+		}
+	}
+	return nil, false, false
 }
